@@ -353,5 +353,5 @@ def bytes_battery(chk):
 
 def safety_net(chk):
     from sym import ptreplay
-    return ptreplay.battery_decode_history(chk.seed) or bytes_battery(chk) or (setter_replay(chk, "SetCanonicalBytes", 32, lambda b: int.from_bytes(b, "little"), lambda b: int.from_bytes(b, "little") < L)
+    return ptreplay.battery_decode_history(chk.seed) or ptreplay.battery_value_history(chk.seed, "scalar") or bytes_battery(chk) or (setter_replay(chk, "SetCanonicalBytes", 32, lambda b: int.from_bytes(b, "little"), lambda b: int.from_bytes(b, "little") < L)
             or setter_replay(chk, "SetUniformBytes", 64, lambda b: int.from_bytes(b, "little")) or setter_replay(chk, "SetBytesWithClamping", 32, clamp_py))
